@@ -222,6 +222,14 @@ def check_case(root, cb, plats, subprocess_too=False):
         s2 = cli.parse_summary(r["out"])
         if r["rc"] != 0 or {k: v for k, v, _, _ in s2["rows"] if v} != {k: v for k, v in exp_sm.items() if v}:
             bad.append(("subprocess-summary", _sm(exp_sm), r["out"][-400:] + r["err"][-200:]))
+        # no -R at all = every report: the summary table must be there and be the same one
+        r = cli.run("codebasin", [an], root)
+        s3 = cli.parse_summary(r["out"])
+        if r["rc"] != 0 or {k: v for k, v, _, _ in s3["rows"] if v} != {k: v for k, v in exp_sm.items() if v} or s3["metrics"].get("Total SLOC") != str(total):
+            bad.append(("default-reports", _sm(exp_sm), (r["rc"], r["out"][-400:] + r["err"][-200:])))
+        for junk in os.listdir(root):
+            if junk.endswith("-dendrogram.png"):
+                os.unlink(os.path.join(root, junk))
         # the other two front ends as real processes (python -m ...): same rows / same export as in-process
         r = cli.run_subprocess("tree", [an], root)
         try:
